@@ -403,6 +403,17 @@ impl C02 {
                 }
             }
         }
+        // header surgery: each piece of the header (version tag, purpose with either or both dots, the whole
+        // header, single characters) written twice, three times, or removed
+        {
+            let pl = purpose.name().len();
+            let hl = 2 + 1 + pl + 1;
+            for (at, n) in [(0usize, 2usize), (0, 3), (2, pl + 2), (3, pl + 1), (3, pl), (2, pl + 1), (0, hl), (0, 1), (1, 1), (2, 1), (hl - 1, 1)] {
+                deliver(&mut b, vec![TokFault::TextDupRange { at, n }]);
+                deliver(&mut b, vec![TokFault::TextDupRange { at, n }, TokFault::TextDupRange { at, n }]);
+                deliver(&mut b, vec![TokFault::TextRemoveRange { at, n }]);
+            }
+        }
         // the trailing dot is *not* a corruption: must still be accepted when the footer is empty
         deliver(&mut b, vec![TokFault::TextTrailingDot]);
         b.finish()
